@@ -1881,6 +1881,50 @@ func b09SharedOptions() [][]*b09N {
 	return out
 }
 
+// b09Boundaries: field tags exactly at the boundaries of the extension ranges and reserved
+// ranges of their message (start-1 and end+1), enum values at start-1 / end+1 of reserved enum
+// ranges, `max` ends, several ranges, nested messages; proto2 and editions (and proto3 for
+// reserved ranges).  All accepted by the unchanged compiler: not filtered.
+func b09Boundaries() [][]*b09N {
+	var out [][]*b09N
+	for _, syn := range []string{"2", "e", "3"} {
+		lbl := "o"
+		if syn != "2" {
+			lbl = "n"
+		}
+		fl := func(name string, num int) *b09N { return b09Fld(lbl, "bool", name, num) }
+		if syn != "3" {
+			// extension ranges 10-19, 30, 1000-max: tags 9, 20, 29, 31, 999
+			out = append(out, []*b09N{b09File("a.proto", syn, "p", b09Msg("A",
+				&b09N{K: 'r', A: []string{"1", "10", "19"}}, fl("flag", 20)))})
+			out = append(out, []*b09N{b09File("a.proto", syn, "p", b09Msg("A",
+				&b09N{K: 'r', A: []string{"1", "10", "19"}}, fl("before", 9), fl("after", 20)))})
+			out = append(out, []*b09N{b09File("a.proto", syn, "p", b09Msg("A",
+				&b09N{K: 'r', A: []string{"3", "10", "19", "30", "30", "1000", "max"}},
+				fl("a", 9), fl("b", 20), fl("c", 29), fl("d", 31), fl("e", 999), fl("one", 1),
+				b09Msg("B", &b09N{K: 'r', A: []string{"1", "2", "2"}}, fl("x", 1), fl("y", 3),
+					b09Msg("C", &b09N{K: 'r', A: []string{"2", "100", "199", "201", "max"}}, fl("z", 200), fl("w", 99)))))})
+			out = append(out, []*b09N{b09File("a.proto", syn, "p", b09Msg("A",
+				&b09N{K: 'r', A: []string{"1", "10", "19"}}, &b09N{K: 'r', A: []string{"1", "21", "29"}}, fl("mid", 20),
+				b09Leaf('v', "30", "39"), fl("after_rsv", 40), fl("before_all", 9)))})
+		}
+		// reserved ranges 10-19, 30, 1000-max (inclusive ends): tags 9, 20, 29, 31, 999
+		out = append(out, []*b09N{b09File("a.proto", syn, "p", b09Msg("A",
+			b09Leaf('v', "10", "19"), b09Leaf('v', "30", "30"), b09Leaf('v', "1000", "max"),
+			fl("a", 9), fl("b", 20), fl("c", 29), fl("d", 31), fl("e", 999),
+			b09Msg("B", b09Leaf('v', "2", "2"), fl("x", 1), fl("y", 3))))})
+		// enum values next to reserved enum ranges (-5..-1, 5..9, 100..max)
+		first := "0"
+		out = append(out, []*b09N{b09File("a.proto", syn, "p", &b09N{K: 'N', A: []string{"E"}, Body: []*b09N{
+			{K: 'V', A: []string{"Z", first}}, {K: 'V', A: []string{"M6", "-6"}}, {K: 'V', A: []string{"P4", "4"}},
+			{K: 'V', A: []string{"P10", "10"}}, {K: 'V', A: []string{"P99", "99"}},
+			b09Leaf('v', "-5", "-1"), b09Leaf('v', "5", "9"), b09Leaf('v', "100", "max")}},
+			b09Msg("A", &b09N{K: 'N', A: []string{"F"}, Body: []*b09N{{K: 'V', A: []string{"FZ", "0"}}, {K: 'V', A: []string{"F2", "2"}},
+				b09Leaf('v', "1", "1"), b09Leaf('v', "3", "3")}}, b09Fld("r", "F", "f", 1)))})
+	}
+	return out
+}
+
 // b09FeatureFamily: constructs for which the linker / options interpreter synthesises or
 // copies something into the descriptor, centred on editions features (map fields whose
 // features are propagated to the synthetic key/value fields, file/message/enum level
@@ -2127,6 +2171,7 @@ func (e *b09Engine) Gen(r *Rand, tier string) [][]string {
 	// compile, so a rejection by the real compiler shows up as a disagreement
 	wss = append(wss, b09SmallDomain()...)
 	wss = append(wss, b09SharedOptions()...)
+	wss = append(wss, b09Boundaries()...)
 	for _, ws := range b09FeatureFamily() {
 		if b09Accepted(ws) {
 			wss = append(wss, ws)
